@@ -96,7 +96,7 @@ var pureExternPrefixes = []string{
 	"fmt.Sprint", "fmt.Print", "fmt.Fprint", "strings.", "strconv.", "(*encoding/base64.Encoding).EncodeToString",
 	"encoding/hex.EncodeToString", "time.", "(time.Time).", "(time.Duration).", "(*time.Timer).", "unicode.", "unicode/utf8.",
 	"(*strings.Builder).", "math.", "errors.Is", "errors.As", "errors.Unwrap", "os.Getenv", "runtime.", "(*sync.Once).",
-	"context.With", "context.Background", "context.TODO", "bytes.Equal", "bytes.Compare", "crypto/sha256.Sum256", "crypto/sha512.", "(*sync/atomic.", "sync/atomic.",
+	"context.With", "context.Background", "context.TODO", "bytes.Equal", "bytes.Compare", "crypto/sha256.Sum256", "crypto/sha512.", "(*google.golang.org/protobuf/types/known/timestamppb.Timestamp).", "google.golang.org/protobuf/types/known/timestamppb.", "(*sync/atomic.", "sync/atomic.",
 }
 
 func findIfaceExtern(t types.Type, m *types.Func) ifaceExternFn {
